@@ -28,6 +28,7 @@ import (
 	"github.com/kubewharf/kubegateway/pkg/clusters"
 	"github.com/kubewharf/kubegateway/pkg/zzverif/vsched"
 
+	"verifh/ctlrig"
 	"verifh/e2e"
 	"verifh/ev"
 	"verifh/kit"
@@ -582,6 +583,124 @@ func triggeredProbes(c *ev.Check) {
 	}
 }
 
+// probe target: an endpoint's health is decided by probes that reach THAT endpoint - also after its transport was
+// rebuilt (ResetTransport, what the real health check does after three hung probes) and whatever was added to the
+// cluster afterwards. Real GatewayHealthCheck through the controller, stub API servers counting /healthz arrivals.
+func probeTargets(c *ev.Check) {
+	ctl := ctlrig.New()
+	r := e2e.NewWithManager(ctl.C)
+	ups := []*e2e.Upstream{e2e.NewUpstream("e1"), e2e.NewUpstream("e2"), e2e.NewUpstream("e3")}
+	// e0 only exists so that the cluster can be created before the probe interval is set: e1..e3 join afterwards with
+	// one-hour probe loops, so the only probes they ever get are the first one and the triggered ones (deterministic
+	// arrival matching); e0's own 5 s loop probes e0's stub, which is not looked at
+	e0 := e2e.NewUpstream("e0")
+	defer func() {
+		r.Close()
+		e0.Close()
+		for _, u := range ups {
+			u.Close()
+		}
+	}()
+	if _, err := ctl.Apply(e2e.ClusterObject("pt", e0)); err != nil {
+		c.EngineError("probe-targets: " + err.Error())
+		return
+	}
+	ci, _ := ctl.C.Get("pt")
+	if ci == nil {
+		c.EngineError("probe-targets: cluster not created")
+		return
+	}
+	ci.VerifSetHealthCheckInterval(time.Hour)
+	if _, err := ctl.Apply(e2e.ClusterObject("pt", e0, ups[0], ups[1])); err != nil {
+		c.EngineError("probe-targets: " + err.Error())
+		return
+	}
+	waitReady := func(us ...*e2e.Upstream) bool {
+		deadline := time.Now().Add(20 * time.Second)
+		for time.Now().Before(deadline) {
+			ok := true
+			for _, u := range us {
+				info, found := ci.Endpoints.Load(u.URL())
+				ok = ok && found && info.IsReady()
+			}
+			if ok {
+				return true
+			}
+			time.Sleep(5 * time.Millisecond)
+		}
+		return false
+	}
+	if !waitReady(ups[0], ups[1]) {
+		c.EngineError("probe-targets: the rig's cluster did not become ready")
+		return
+	}
+	time.Sleep(50 * time.Millisecond) // the first probes have been answered; nothing else will probe e1..e3
+	// one triggered probe of endpoint k must arrive at stub k and nowhere else
+	probeOnce := func(stage string, k int) {
+		info, ok := ci.Endpoints.Load(ups[k].URL())
+		if !ok {
+			c.EngineError("probe-targets: endpoint unknown")
+			return
+		}
+		before := [3]int64{ups[0].ProbeCount(), ups[1].ProbeCount(), ups[2].ProbeCount()}
+		info.TriggerHealthCheck()
+		deadline := time.Now().Add(20 * time.Second)
+		arrived := -1
+		for time.Now().Before(deadline) && arrived < 0 {
+			for i, u := range ups {
+				if u.ProbeCount() > before[i] {
+					arrived = i
+				}
+			}
+			time.Sleep(2 * time.Millisecond)
+		}
+		c.Add("probe_target_cases", 1)
+		c.Outcome("probe_targets", fmt.Sprintf("%s/e%d->e%d", stage, k+1, arrived+1))
+		if arrived != k {
+			c.Violation("probing/probe-sent-to-another-endpoint", fmt.Sprintf("[%s] a health probe of endpoint e%d arrived at e%d: e%d's health is then decided by another server's answers", stage, k+1, arrived+1, k+1), stage)
+		}
+	}
+	probeOnce("fresh", 0)
+	probeOnce("fresh", 1)
+	for k := 0; k < 2; k++ {
+		info, _ := ci.Endpoints.Load(ups[k].URL())
+		if err := info.ResetTransport(); err != nil {
+			c.EngineError("probe-targets: ResetTransport: " + err.Error())
+			return
+		}
+		probeOnce(fmt.Sprintf("after resetting e%d's transport", k+1), 0)
+		probeOnce(fmt.Sprintf("after resetting e%d's transport", k+1), 1)
+	}
+	// a third server joins, then the first one's transport is rebuilt again
+	if _, err := ctl.Apply(e2e.ClusterObject("pt", e0, ups[0], ups[1], ups[2])); err != nil || !waitReady(ups[2]) {
+		c.EngineError("probe-targets: adding e3 failed")
+		return
+	}
+	time.Sleep(50 * time.Millisecond)
+	info, _ := ci.Endpoints.Load(ups[0].URL())
+	_ = info.ResetTransport()
+	for k := 0; k < 3; k++ {
+		probeOnce("after e3 joined and e1's transport was reset", k)
+	}
+	// and proxied traffic follows the same transports
+	for _, u := range ups {
+		u.Requests()
+	}
+	e0.Requests()
+	for i := 0; i < 12; i++ {
+		_, _, _ = r.Do("GET", "pt", "/api/v1/pods", nil, nil)
+	}
+	got := []int{len(e0.Requests())}
+	for _, u := range ups {
+		got = append(got, len(u.Requests()))
+	}
+	for k, n := range got {
+		if n == 0 {
+			c.Violation("probing/endpoint-without-traffic-after-reset", fmt.Sprintf("after the transport resets 12 requests over 4 ready endpoints were distributed %v: e%d received none", got, k), nil)
+		}
+	}
+}
+
 // ------------------------------------------------------------------ engine A
 
 type obsA struct {
@@ -803,6 +922,7 @@ func main() {
 	tasks = append(tasks, ev.Task{Name: "through-the-handler-chain", Run: func() { throughChain(c) }})
 	tasks = append(tasks, ev.Task{Name: "probing", Run: func() { probing(c) }})
 	tasks = append(tasks, ev.Task{Name: "triggered-probes", Run: func() { triggeredProbes(c) }})
+	tasks = append(tasks, ev.Task{Name: "probe-targets", Run: func() { probeTargets(c) }})
 	tasks = append(tasks, ev.Task{Name: "stress", Run: func() { stress(c, time.Duration(c.Pick(1500, 6000))*time.Millisecond) }})
 	bounds := []int{0, 1, 2}
 	if c.Thorough() {
